@@ -209,3 +209,24 @@ MANIFEST_TEXT["C11"] = {
     "technique": "property-based testing (rapid), model-based oracle independent of Stump.add / calculateHashes",
 }
 NOT_APPLICABLE[:] = [e for e in NOT_APPLICABLE if e["property_id"] not in CHECKS]
+
+CHECKS["C08"] = {
+    "test": "TestC08",
+    "quick": {"shards": 8, "checks": 1500},
+    "thorough": {"shards": 16, "checks": 6000},
+    "rule": "rapid-generated sequences of block (C07's remember classes) / undo (depth 1 or random depth, newest first) / redo steps; new blocks after an undo use "
+            "different leaf hashes. The light client calls Proof.Update per block and Proof.Undo with (numAdds, leaf count after the block, the block's targets, "
+            "deleted hashes, its own hashes, UpdateData.ToDestroy, the block proof). After every single undo, against the model of the pre-block state: no held "
+            "leaf was added by the undone block, none is invented (only previously held leaves or leaves the block deleted), no leaf live before and after is "
+            "lost, every held leaf is paired with the model's position, the proof hashes are the model's canonical ones and Verify accepts against the "
+            "previous stump; the same exact check runs after every later Proof.Update (redo / other branch). Non-trivial: an undo with a non-empty cache "
+            "before and after of a block that both deleted and added.",
+    "assumptions": COMMON_ASSUME + ["leaves the undone block deleted may or may not be restored (documented as not restored): both accepted"],
+}
+MANIFEST_TEXT["C08"] = {
+    "level_text": "Exploration: stateful generation of update/undo/redo sequences for the cached proof with a model-based exact oracle after every step.",
+    "design_ref": "DESIGN.md section 6 C08",
+    "level_note": TRUST,
+    "technique": "stateful property-based testing (rapid), model-based oracle (leaf-set inclusion rules, positions, canonical proof)",
+}
+NOT_APPLICABLE[:] = [e for e in NOT_APPLICABLE if e["property_id"] not in CHECKS]
